@@ -1,18 +1,29 @@
 CHECK = {
     "level": "exploration",
     "assumptions": [
-        "FSM.ApplyBatch is driven directly (no hashicorp/raft runtime, no chunked entries); the log store, elections and the network are not part of this check",
-        "verification hashes are those a leader computes from the state at the transaction's start index; wrong ('forged') hashes are generated only for keys/listings written inside the transaction's window, where every replica must verify them (a wrong hash on untouched data is trusted by design of the fast path)",
-        "LowestActiveIndex is shipped as a correct leader computes it (min start of the transactions open at proposal time, capped by the applied index); the lagging-FSM leader of finding F7 is C08's subject",
+        "replicas: FSM.chunker.ApplyBatch (the chunking wrapper hashicorp/raft is given) is driven directly; no hashicorp/raft runtime, elections or network; all logs carry term 1 (a term change between the chunks of an entry legitimately drops it and is not generated)",
+        "replicas: entries larger than raftchunking.ChunkSize (1-2 per log in ~8% of the logs, 2-3 chunks, optionally with small entries logged between the chunks) are cut by raftchunking.ChunkingApply itself; its random op number (crypto/rand) only names the stored chunks and is the one thing that is not a function of VERIF_SEED; two chunked entries never overlap",
+        "replicas: a reopen at position p continues either with log p+1 (a raft snapshot was taken at p before the restart) or with the first log after the index the FSM persisted (plain restart: raft replays the trailing chunk logs); logs that already reached the FSM are never fed twice (raft does not do that with this snapshot store)",
+        "verification hashes are those a leader computes from the state at the transaction's start index; wrong ('forged') hashes are generated only for keys/listings written inside the transaction's window, where every replica must verify them (a wrong hash on untouched data is trusted by design of the fast path); the simulated leader's listings never contain the chunk storage prefix",
+        "LowestActiveIndex is shipped as a correct leader computes it when it proposes the entry (min start of the transactions open then, capped by the index its FSM has applied)",
         "snapshots of an empty data bucket are not generated (the sink creates no file for them)",
+        "leader-log: single-node live backend and schedule generator of C08's raft-live unit (no chunked entries there); the replicas start from an empty store plus one synthetic put at the leader's index at case start, which is sound because every case works under its own key prefix and never lists the root",
     ],
     "units": [
-        unit("replicas", "raft", ["raft/c09_replicas_test.go"], "^TestVerif_C09_",
-             quick={"checks": 8000, "shards": 1, "cap": 600},
-             thorough={"checks": 60000, "shards": 16, "cap": 1800},
+        unit("replicas", "raft", ["raft/c09_replicas_test.go"], "^TestVerif_C09_Replicas$",
+             quick={"checks": 4000, "shards": 1, "cap": 600},
+             thorough={"checks": 40000, "shards": 16, "cap": 2400},
              no_ulimit=True,
              # MAP_POPULATE of the 16 MB initial mapping costs 2 ms of kernel time per bolt open (6 opens per case)
              env=dict({"BAO_RAFT_DISABLE_MAP_POPULATE": "1"}, **({"VERIF_KNOWN": __import__("os").environ["C09_DEV_KNOWN"]} if "C09_DEV_KNOWN" in __import__("os").environ else {})),  # DEVHOOK
              floors={"replicas": {"nontrivial": 0.20}}),
+        unit("leader-log", "raft", ["raft/c08_live_test.go", "raft/c09_replicas_test.go", "raft/c09_leaderlog_test.go"], "^TestVerif_C09_LeaderLog$",
+             quick={"checks": 4000, "shards": 1, "cap": 600},
+             thorough={"checks": 30000, "shards": 16, "cap": 2400},
+             no_ulimit=True,
+             env=dict({"BAO_RAFT_DISABLE_MAP_POPULATE": "1"}, **({"VERIF_KNOWN": __import__("os").environ["C09_DEV_KNOWN"]} if "C09_DEV_KNOWN" in __import__("os").environ else {})),  # DEVHOOK
+             # goroutine timing can in principle change how raft groups a burst when rapid re-runs a case; every
+             # verdict is a fact about the log actually written, so an unreproduced failure still counts
+             flaky_is_violation=True),
     ],
 }
